@@ -5,7 +5,8 @@
 // (b) with the property's own sentences (direct oracle, written against the observed history
 // and the known leaves only).  Restart histories (restart.go) cut a history into epochs, each begun
 // by witness.New over the database the previous one left, under the same or another set of
-// configured logs.  Also: transparency-dev/merkle's VerifyConsistency against the
+// configured logs.  Storage-fault histories (fault.go) make one statement of a chosen Update's transaction
+// fail (BEGIN / SELECT / INSERT / COMMIT) and go on.  Also: transparency-dev/merkle's VerifyConsistency against the
 // recursive RFC 6962 verifier of Merkle.v, and the library's tree against mth/cproof/path.
 package main
 
@@ -47,6 +48,7 @@ func main() {
 	h.wrongCountCases(lib.Count(2, 80))
 	h.spellingCases()
 	h.restartCases(lib.Count(30, 200))
+	h.faultCases(lib.Count(24, 300))
 	nSeq := lib.Count(140, 1500)
 	for i := 0; i < nSeq && atomic.LoadInt32(&hangs) < 3; i++ {
 		h.sequentialCase(i)
